@@ -421,10 +421,9 @@ def _inv_validate_elements(L):
 
 # ----------------------------------------------------------------------------- container visits
 rvalid = z3.Function("rvalid", Obj, Obj, M.B)
-"""rvalid(S, v): the *relaxed* validator used by the Substitutor (SubstitutorValidator: `...` placeholders allowed,
-dict keys may be missing) reports no error for the container value v.  Uninterpreted: the relaxed container validation is
-an ASSUMED contract (its bodies are not verified); its consequences used by the Substitutor contracts are the axioms of
-`_rvalid_axioms` below, and the bounded complement exercises the real code."""
+"""rvalid(S, v): the name the Substitutor contracts use for `the relaxed pre-validation of v against S reports no error`.
+The relaxed validator is verified in contracts/relaxed.py against the specification relation rconforms; every call-site
+contract states rvalid(S, v) == rconforms_def(class of S, S, v)."""
 
 
 def self_is_relaxed(c) -> bool:
@@ -478,8 +477,8 @@ def _rvalid_axioms(ct) -> List[Any]:
     ]
 
 
-from pyvc.contracts import REG as _REGV  # noqa: E402
-_REGV.axiom_fns.append(_rvalid_axioms)
+# (no longer axioms: the relaxed validator is verified in contracts/relaxed.py; what a passing verdict implies follows
+#  from rvalid(S, v) == rconforms_def(class, S, v), which the call-site contract and the lemmas state)
 
 
 def container_visit(cls: str, visitor: str = "Validator"):
@@ -690,58 +689,3 @@ def _inv_any(L):
                   z3.ForAll([j], z3.Implies(z3.And(0 <= j, j < L.i), z3.Not(S.conforms(M.lat(t, j), v))),
                             patterns=[M.lat(t, j)]),
                   _path_fixed(L))
-
-
-# the two overriding methods of the relaxed validator.  At call sites: the assumed contract (verdict named rvalid).
-# Verified against their bodies: exception freedom and the shape consequences of a passing verdict that do not depend
-# on the members (the first two rvalid axioms); the exact-count axiom and the verdict of the members stay assumed.
-def relaxed_override(cls: str):
-    def body(c):
-        if c.mode == "call":
-            return relaxed_container_visit(c, cls)
-        ct = c.ct
-        c.built_self("SubstitutorValidator")
-        Sx = c.sym("schema", cls)
-        v = c.sym("value")
-        p = c.sym("path", "PathHolder")
-        c.kwargs()
-        for f in S.wf_def(ct, cls, Sx):
-            c.requires(f)
-        c.requires(S.path_ok(ct, p, c.pre_alloc), "path")
-        c.requires(S.deep_range(v), "float-repr")
-        c.paths()
-        c.returns("ValidationResult")
-        c.raises(props=("C12", "C08"))
-        c.ensures("result", lambda r, post: z3.And(*S.is_result(ct, r)), ("C12",))
-        if cls == "ListSchema":
-            n = M.llen(v)
-            ln, mn, mx = S.prop(Sx, "len"), S.prop(Sx, "min_len"), S.prop(Sx, "max_len")
-            c.ensures("a-passing-value-is-a-list-within-the-declared-lengths", lambda r, post: z3.Implies(S.no_errors(r), z3.And(
-                M.isinstance_f(ct, v, "list"), z3.Implies(ln != M.NilV, n == M.int_of(ln)),
-                z3.Implies(mn != M.NilV, n >= M.int_of(mn)), z3.Implies(mx != M.NilV, n <= M.int_of(mx)))), ("C12", "C04", "C05"))
-        else:
-            c.ensures("a-passing-value-is-a-dict", lambda r, post: z3.Implies(S.no_errors(r), M.isinstance_f(ct, v, "dict")),
-                      ("C12", "C04", "C05"))
-        c.ensures("path-frame", lambda r, post: path_frame(post), ("C07",))
-    return body
-
-
-for _m, _cls in [("visit_list", "ListSchema"), ("visit_dict", "DictSchema")]:
-    contract("d42/substitution/_validator.py", f"SubstitutorValidator.{_m}", props=("C12", "C04", "C05", "C07", "C08"),
-             group="substitutor")(relaxed_override(_cls))
-
-
-@invariant("d42/substitution/_validator.py", "SubstitutorValidator.visit_list", loop=0)
-def _inv_sv_list(L):
-    """L30: the errors list only grows; nothing the shape facts depend on is rebound"""
-    return z3.And(*[L.v(nm) == L.pre(nm) for nm in ("schema", "value", "path")])
-
-
-@invariant("d42/substitution/_validator.py", "SubstitutorValidator.visit_dict", loop=0)
-def _inv_sv_dict0(L):
-    return z3.And(*[L.v(nm) == L.pre(nm) for nm in ("schema", "value", "path")])
-
-
-@invariant("d42/substitution/_validator.py", "SubstitutorValidator.visit_dict", loop=1)
-def _inv_sv_dict1(L):
-    return z3.And(*[L.v(nm) == L.pre(nm) for nm in ("schema", "value", "path")])
